@@ -8,8 +8,16 @@ import time as _time
 import types
 
 _offset = 0.0
+_calls = 0
 _orig = {}
 real_time = _time.time  # for the harness' own wall-clock measurements
+BASE = 1_700_000_000.0  # a fixed epoch: the virtual clock is deterministic (base + harness offset + 1 us per call)
+
+
+def _now() -> float:
+    global _calls
+    _calls += 1
+    return BASE + _offset + _calls * 1e-6
 
 
 def install() -> None:
@@ -17,10 +25,15 @@ def install() -> None:
         return
     for name in ("monotonic", "time", "perf_counter"):
         _orig[name] = getattr(_time, name)
-        setattr(_time, name, (lambda f: (lambda: f() + _offset))(_orig[name]))
+        setattr(_time, name, _now)
     for name in ("monotonic_ns", "time_ns", "perf_counter_ns"):
         _orig[name] = getattr(_time, name)
-        setattr(_time, name, (lambda f: (lambda: f() + int(_offset * 1e9)))(_orig[name]))
+        setattr(_time, name, lambda: int(_now() * 1e9))
+
+
+def real(name: str = "time"):
+    """The original function (for the harness' own measurements)."""
+    return _orig.get(name, getattr(_time, name))
 
 
 def advance(seconds: float) -> None:
@@ -28,14 +41,21 @@ def advance(seconds: float) -> None:
     _offset += seconds
 
 
+def reset() -> None:
+    """Called at the start of every worker task: the clock a task sees does not depend on what ran before it."""
+    global _offset, _calls
+    _offset = 0.0
+    _calls = 0
+
+
 class _ShiftedDateTime(_dt.datetime):
     @classmethod
     def now(cls, tz=None):
-        return _dt.datetime.now(tz) + _dt.timedelta(seconds=_offset)
+        return _dt.datetime.fromtimestamp(_now(), tz)
 
     @classmethod
     def utcnow(cls):
-        return _dt.datetime.utcnow() + _dt.timedelta(seconds=_offset)
+        return _dt.datetime.utcfromtimestamp(_now())
 
     @classmethod
     def today(cls):
